@@ -62,6 +62,9 @@ pub struct DlCfg {
     /// payload of the first request when there is no upload phase
     pub req_payload: Vec<u8>,
     /// requests on OTHER keys that the server handles between two block requests of this transfer
+    /// before the transfer, the client tries to RESUME an older one: a request for a block far
+    /// beyond the end of the body (the handler can only answer with an error)
+    pub stale_resume_first: Option<(u32, u8)>,
     pub noise_between_blocks: usize,
     /// requests on other keys handled while the first request of this transfer is still with the application
     pub overlap_first_exchange: usize,
@@ -72,7 +75,7 @@ pub struct DlCfg {
 
 impl DlCfg {
     pub fn base() -> DlCfg {
-        DlCfg { ep: 0, path: vec![], body: vec![], reply_opts: vec![], tkl: 0, strategy: Strategy::Follow, typ: 0, abandon_after: None, vary_tkl: false, code: 1, upload: None, req_payload: vec![], noise_between_blocks: 0, overlap_first_exchange: 0, skip_release_probes: false }
+        DlCfg { ep: 0, path: vec![], body: vec![], reply_opts: vec![], tkl: 0, strategy: Strategy::Follow, typ: 0, abandon_after: None, vary_tkl: false, code: 1, upload: None, req_payload: vec![], noise_between_blocks: 0, overlap_first_exchange: 0, skip_release_probes: false, stale_resume_first: None }
     }
 }
 
@@ -149,6 +152,25 @@ pub fn download(server: &mut Server, cfg: &DlCfg, ids: &mut Ids) -> (Vec<Finding
         }};
     }
     let tkl_for = |ids: &Ids| if cfg.vary_tkl { (ids.mid as usize * 7 + 3) % (cfg.tkl + 1) } else { cfg.tkl };
+    if let Some((num, szx)) = cfg.stale_resume_first {
+        let mut q = ReqSpec::new(cfg.code, &path);
+        let (mid, tok) = ids.next(tkl_for(ids));
+        q.mid = mid;
+        q.token = tok;
+        // (really beyond the end: a block inside the body would simply start a transfer there)
+        let num = num.max((cfg.body.len() / szx_size(szx)) as u32 + 1);
+        q.block2 = Some((num, false, szx));
+        let before = own_calls.get();
+        let ex = server.exchange(&q.bytes(), cfg.ep, &mut app);
+        if let Step::Panic(p) = &ex.intercept_request {
+            bail!(Scope::Transfer, &p.sig(), "{}", p.text());
+        }
+        if let Some(Step::Panic(p)) = &ex.intercept_response {
+            bail!(Scope::Transfer, &p.sig(), "{}", p.text());
+        }
+        // (how the refusal is rendered is C11's business; here it only has to leave nothing behind)
+        own_calls.set(before);
+    }
     let mut req = ReqSpec::new(cfg.code, &path);
     req.typ = cfg.typ;
     req.payload = cfg.req_payload.clone();
@@ -182,16 +204,47 @@ pub fn download(server: &mut Server, cfg: &DlCfg, ids: &mut Ids) -> (Vec<Finding
     let noise_path = cfg.path.clone();
     let noise_ep = cfg.ep;
     let noise_code = cfg.code;
+    let observed_mid = req.mid;
     let noise = |server: &mut Server, n: usize, noise_id: &mut u32| {
         for _ in 0..n {
             *noise_id += 1;
-            noise_request(server, *noise_id, noise_ep, &noise_path, noise_code);
+            noise_request_mid(server, *noise_id, noise_ep, &noise_path, noise_code, Some(observed_mid));
         }
     };
     let ex = if cfg.overlap_first_exchange > 0 {
         let k = cfg.overlap_first_exchange;
-        let mut between = |srv: &mut Server| noise(srv, k, &mut noise_id);
-        server.exchange_overlapped(&req.bytes(), cfg.ep, &mut app, &mut between)
+        // the observed request is taken in and stays with the application while: k other exchanges
+        // happen from start to end, and up to three more requests are taken in that are STILL pending
+        // when the observed reply goes out (they are answered afterwards) - same message id included
+        let pending = server.take_in(&req.bytes(), cfg.ep);
+        noise(server, k, &mut noise_id);
+        let mut crossed: Vec<crate::blockclient::Pending> = Vec::new();
+        for c in 0..(k % 4) as u32 {
+            let mut q = match c % 3 {
+                0 => ReqSpec::new(1, &["crossing", "other"]),
+                1 => {
+                    let conf = confusable_paths(&cfg.path);
+                    let segs: Vec<&str> = conf[c as usize % conf.len()].iter().map(|x| x.as_str()).collect();
+                    ReqSpec::new(cfg.code, &segs)
+                }
+                _ => ReqSpec::new(if cfg.code == 4 { 1 } else { 4 }, &path),
+            };
+            q.mid = if c % 2 == 0 { req.mid } else { req.mid.wrapping_add(1 + c as u16) };
+            q.token = vec![0xC0 | c as u8; (c as usize * 3) % 9];
+            q.block2 = match c {
+                0 => Some((2, false, 0)),
+                1 => None,
+                _ => Some((0, false, 6)),
+            };
+            let cep = if c % 3 == 1 { cfg.ep } else { cfg.ep + 900 + c };
+            crossed.push(server.take_in(&q.bytes(), cep));
+        }
+        let ex = server.answer(pending, &mut app);
+        for (c, p) in crossed.into_iter().enumerate() {
+            let mut other = |_r: &coap_lite::CoapRequest<CEp>| AppReply::content(vec![0x78; if c == 1 { 700 } else { 3 }]);
+            let _ = server.answer(p, &mut other);
+        }
+        ex
     } else {
         server.exchange(&req.bytes(), cfg.ep, &mut app)
     };
@@ -199,6 +252,15 @@ pub fn download(server: &mut Server, cfg: &DlCfg, ids: &mut Ids) -> (Vec<Finding
         bail!(Scope::Transfer, &p.sig(), "{}", p.text());
     }
     if ex.intercept_request.ok() != Some(false) || !ex.app_called {
+        // whatever answered instead of the application is still a handler-produced message: budget and
+        // block-size clauses apply to it (C10 judges those; the missing application call is C08's)
+        if let (Some(l), Some(reply)) = (ex.reply_len, &ex.reply) {
+            if reply.get_first_option(CoapOption::Block2).is_some() {
+                if l > budget {
+                    out.push(f(Scope::Budget, "block2-reply-exceeds-budget", format!("a first request answered without the application: {} bytes, budget {}", l, budget)));
+                }
+            }
+        }
         bail!(Scope::Transfer, "first-request-not-passed-to-application", "{}", ex.summary());
     }
     if let Some((ubody, uszx)) = &cfg.upload {
@@ -773,7 +835,7 @@ pub fn run_sessions(rep: &mut Report, r: &mut Rng, n: u64, level: u32, scope: Sc
                 2 => Strategy::Early(r.below(7) as u8),
                 _ => Strategy::Reduce { early: None, after: r.urange(1, 2), new_szx: r.below(2) as u8 },
             };
-            let cfg = DlCfg { ep: 7, path: vec!["sess".into()], body: body_bytes(r.next_u64(), blen), reply_opts: opts.clone(), tkl, strategy, typ: 0, abandon_after: None, vary_tkl: r.chance(1, 3), code, upload, req_payload: if code != 1 && r.bool() { b"q".to_vec() } else { vec![] }, noise_between_blocks: 0, overlap_first_exchange: 0, skip_release_probes: t + 1 < ntx && r.chance(2, 3) };
+            let cfg = DlCfg { ep: 7, path: vec!["sess".into()], body: body_bytes(r.next_u64(), blen), reply_opts: opts.clone(), tkl, strategy, typ: 0, abandon_after: None, vary_tkl: r.chance(1, 3), code, upload, req_payload: if code != 1 && r.bool() { b"q".to_vec() } else { vec![] }, noise_between_blocks: 0, overlap_first_exchange: 0, skip_release_probes: t + 1 < ntx && r.chance(2, 3), stale_resume_first: if r.chance(1, 8) { Some((r.urange(3, 3000) as u32, r.below(7) as u8)) } else { None } };
             story.push(format!("#{} {} upload {:?} reply {}B strategy {:?} vary_tkl {}", t, coap_lite::MessageClass::from(code), cfg.upload.as_ref().map(|u| (u.0.len(), szx_size(u.1))), blen, cfg.strategy, cfg.vary_tkl));
             let witness = format!("session on one handler and key, budget {} reply options {:?}: {}", m, opts.iter().map(|o| o.0).collect::<Vec<_>>(), story.join(" ; "));
             set_case_str(&witness);
@@ -928,10 +990,24 @@ pub fn confusable_paths(path: &[String]) -> Vec<Vec<String>> {
 /// kind there: a plain exchange, a stored Block2 preference, a cached fragmented reply, an
 /// unfinished upload.
 pub fn noise_request(server: &mut Server, id: u32, ep: u32, path: &[String], observed_code: u8) {
+    noise_request_mid(server, id, ep, path, observed_code, None)
+}
+
+/// `same_mid`: the message id of the observed request that is in flight right now - ids are per
+/// client, so other clients' requests may well carry the same one
+pub fn noise_request_mid(server: &mut Server, id: u32, ep: u32, path: &[String], observed_code: u8, same_mid: Option<u16>) {
     let mut small = |_r: &coap_lite::CoapRequest<CEp>| AppReply::content(b"n".to_vec());
+    let the_mid = match same_mid {
+        Some(m) if id % 2 == 0 => m,
+        _ => id as u16,
+    };
     if id % 3 != 0 {
         let mut q = ReqSpec::new(1, &["noise", &format!("{}", id % 4099)]);
-        q.mid = id as u16;
+        q.mid = the_mid;
+        // a few of them are follow-up requests of other clients' downloads
+        if id % 4 == 1 {
+            q.block2 = Some((1 + id % 5, false, (id % 7) as u8));
+        }
         let _ = server.exchange(&q.bytes(), 50_000 + id % 13, &mut small);
         return;
     }
@@ -944,15 +1020,15 @@ pub fn noise_request(server: &mut Server, id: u32, ep: u32, path: &[String], obs
     };
     let segs: Vec<&str> = npath.iter().map(|s| s.as_str()).collect();
     let mut q = ReqSpec::new(code, &segs);
-    q.mid = id as u16;
+    q.mid = the_mid;
     q.token = vec![(id & 0xff) as u8; (k % 9).min(8)];
     match (k / 5) % 4 {
         0 => {
             let _ = server.exchange(&q.bytes(), nep, &mut small);
         }
         1 => {
-            // states a (large) block size preference; the reply is small
-            q.block2 = Some((0, false, 6));
+            // states a block size preference (sometimes for a later block); the reply is small
+            q.block2 = Some(((k as u32 / 20) % 3, false, if k % 2 == 0 { 6 } else { (k % 7) as u8 }));
             let _ = server.exchange(&q.bytes(), nep, &mut small);
         }
         2 => {
@@ -975,14 +1051,19 @@ pub fn noise_request(server: &mut Server, id: u32, ep: u32, path: &[String], obs
 
 pub fn busy_server(rep: &mut Report, r: &mut Rng, ids: &mut Ids, scope: Scope, level: u32) {
     let loads: &[(usize, usize)] = if level == 0 { &[(3, 3)] } else { &[(0, 70), (70, 0), (1100, 0), (0, 1100), (2500, 70), (5, 5), (16, 16), (1, 1), (31, 0), (0, 31)] };
-    for &(between_blocks, overlap) in loads {
+    let variants: u64 = if level == 0 { 1 } else { 3 };
+    for (&(between_blocks, overlap), variant) in loads.iter().flat_map(|l| (0..variants).map(move |v| (l, v))) {
         rep.eval();
-        let szx = r.below(4) as u8;
+        let szx = if variant == 0 { r.below(4) as u8 } else { (variant as u8 - 1) * 2 };
         let opts = gen_reply_opts(r);
         let tkl = r.usize_below(9);
         let overhead = reply_overhead(tkl, &opts);
-        let m = (overhead + 12 + 32 + szx_size(szx) + r.usize_below(200)).min(1280);
-        let len = szx_size(szx) * 3 + r.usize_below(40) + 1;
+        // with room for at least twice the client's size (a server that forgot the preference would
+        // visibly pick a larger one), or with random slack
+        let slack = if variant >= 1 { szx_size(szx) + 40 + r.usize_below(100) } else { r.usize_below(200) };
+        let m = (overhead + 12 + 32 + szx_size(szx) + slack).min(1280);
+        // (longer than the budget for two out of three: no way around fragmenting it)
+        let len = szx_size(szx) * 3 + r.usize_below(40) + 1 + if variant >= 1 { m } else { 0 };
         let bpath: Vec<String> = match r.below(5) {
             0 => vec!["busy".into()],
             1 => vec!["fw".into(), "v2".into()],
@@ -1074,7 +1155,10 @@ pub fn run_c08(ctx: &mut Ctx) {
             3 => vec!["Aa".into(), "BB".into()],
             _ => vec!["d".into(), format!("{}", r.below(5))],
         };
-        let cfg = DlCfg { ep: r.below(4) as u32, path, body: body_bytes(r.next_u64(), len), reply_opts, tkl, strategy, typ: r.below(2) as u8, abandon_after: None, vary_tkl: r.chance(1, 3), ..DlCfg::base() };
+        let cfg = DlCfg { ep: r.below(4) as u32, path, body: body_bytes(r.next_u64(), len), reply_opts, tkl, strategy, typ: r.below(2) as u8, abandon_after: None, vary_tkl: r.chance(1, 3), stale_resume_first: if r.chance(1, 8) { Some((r.urange(3, 3000) as u32, r.below(7) as u8)) } else { None }, ..DlCfg::base() };
+        if cfg.stale_resume_first.is_some() {
+            rep.count("transfers_after_a_stale_resume_attempt");
+        }
         if cfg.vary_tkl {
             rep.count("transfers_with_varying_token_length");
         }
@@ -1464,7 +1548,10 @@ pub fn run_c10(ctx: &mut Ctx) {
         if m > 1280 {
             continue;
         }
-        let cfg = DlCfg { ep: 2, path: vec![String::from_utf8(vec![b'x'; plen]).unwrap()], body: body_bytes(r.next_u64(), len), reply_opts, tkl, strategy, typ: r.below(2) as u8, abandon_after: None, vary_tkl: false, ..DlCfg::base() };
+        let cfg = DlCfg { ep: 2, path: vec![String::from_utf8(vec![b'x'; plen]).unwrap()], body: body_bytes(r.next_u64(), len), reply_opts, tkl, strategy, typ: r.below(2) as u8, abandon_after: None, vary_tkl: false, stale_resume_first: if r.chance(1, 5) { Some((r.urange(3, 3000) as u32, r.below(7) as u8)) } else { None }, ..DlCfg::base() };
+        if cfg.stale_resume_first.is_some() {
+            rep.count("transfers_after_a_stale_resume_attempt");
+        }
         dl_one(rep, m, &cfg, &mut ids, Scope::Budget);
     }
     // uploads: the request's overhead is what matters
